@@ -1,0 +1,40 @@
+//go:build verif
+
+// Licensed to LinDB under one or more contributor
+// license agreements. See the NOTICE file distributed with
+// this work for additional information regarding copyright
+// ownership. LinDB licenses this file to you under
+// the Apache License, Version 2.0 (the "License"); you may
+// not use this file except in compliance with the License.
+// You may obtain a copy of the License at
+//
+//     http://www.apache.org/licenses/LICENSE-2.0
+//
+// Unless required by applicable law or agreed to in writing,
+// software distributed under the License is distributed on an
+// "AS IS" BASIS, WITHOUT WARRANTIES OR CONDITIONS OF ANY
+// KIND, either express or implied.  See the License for the
+// specific language governing permissions and limitations
+// under the License.
+
+package stage
+
+import (
+	"github.com/lindb/lindb/sql/stmt"
+	"github.com/lindb/lindb/tsdb"
+)
+
+// This file only exists with the "verif" build tag (property C17). It lets the external verification
+// harness read which statement a leaf stage is about to execute; it changes no behaviour.
+
+// VerifLeafStatement returns the statement held by the first stage of a leaf pipeline
+// (metadata lookup stage of a data search, metadata suggest stage of a metadata search) and its database.
+func VerifLeafStatement(s Stage) (query *stmt.Query, metadata *stmt.MetricMetadata, database tsdb.Database) {
+	switch st := s.(type) {
+	case *metadataLookupStage:
+		return st.leafExecuteCtx.StorageExecuteCtx.Query, nil, st.leafExecuteCtx.Database
+	case *metadataSuggestStage:
+		return nil, st.ctx.Request, st.ctx.Database
+	}
+	return nil, nil, nil
+}
